@@ -41,7 +41,7 @@ from afkak.consumer import Consumer
 from afkak.kafkacodec import KafkaCodec
 
 import attr
-from twisted.internet.defer import CancelledError, Deferred, DeferredList, inlineCallbacks
+from twisted.internet.defer import CancelledError, Deferred, DeferredList, fail, inlineCallbacks
 from twisted.internet.task import LoopingCall
 
 log = logging.getLogger(__name__)
@@ -260,8 +260,18 @@ class Coordinator(object):
             self._heartbeat_looper_d.addErrback(self._heartbeat_timer_failed)
             self._heartbeat_looper_d.addBoth(self._heartbeat_timer_stopped)
 
-    @inlineCallbacks
     def stop(self, errback_result=None):
+        try:
+            self._begin_stop(errback_result)
+        except RestopError:
+            return fail()
+        return self._finish_stop(errback_result)
+
+    def _begin_stop(self, errback_result=None):
+        """
+        Mark the coordinator as stopping: from here on no join is started or
+        continued and nothing is rescheduled.
+        """
         if self._start_d is None:
             raise RestopError("Shutdown called on non-running coordinator")
 
@@ -272,6 +282,9 @@ class Coordinator(object):
         self._state = "[stopping]"
         self._stopping = True
         self._rejoin_needed = False
+
+    @inlineCallbacks
+    def _finish_stop(self, errback_result=None):
         if self._rejoin_wait_dc:
             self._rejoin_wait_dc.cancel()
 
@@ -350,6 +363,11 @@ class Coordinator(object):
         return result
 
     def rejoin_after_error(self, result, label="rejoin_after_error"):
+        if self._stopping:
+            # We are leaving the group: nothing is rescheduled
+            log.debug("%s %s: ignored while stopping: %s", self, label, result.value)
+            return
+
         rejoin_delay = self.retry_backoff_ms
 
         if result.check(RebalanceInProgress):
@@ -465,6 +483,8 @@ class Coordinator(object):
 
         self._state = "[joining]"
         yield self.on_join_prepare()
+        if self._stopping:
+            return
         join_response = yield self.send_join_group_request()
         if not join_response or self._stopping:
             # join failed, we'll be called again after a small delay
@@ -489,6 +509,8 @@ class Coordinator(object):
                     topic_partitions=topic_partitions,
                 )
 
+        if self._stopping:
+            return
         self._state = "[syncing]"
         sync_response = yield self.send_sync_group_request(assignments)
         if not sync_response or self._stopping:
@@ -866,5 +888,6 @@ class ConsumerGroup(Coordinator):
         This waits for any ongoing processing to complete and commits offsets.
         It may take some time.
         """
+        self._begin_stop(errback_result)
         yield self.shutdown_consumers()
-        yield super(ConsumerGroup, self).stop(errback_result=errback_result)
+        yield self._finish_stop(errback_result)
